@@ -280,11 +280,21 @@ def rfc3339(epoch_ms, off_min=0, frac=False, zulu=False):
     return s + "%s%02d:%02d" % ("+" if off_min >= 0 else "-", abs(off_min) // 60, abs(off_min) % 60)
 
 
-def timify(rng, machine, plans, data, base_epoch_ms=1700000000000):
+LIMIT_SHARE = 0.4       # share of the timed cases whose machine gets a top-level TimeoutSeconds
+
+
+def timify(rng, machine, plans, data, base_epoch_ms=1700000000000, limit_share=LIMIT_SHARE):
     """Make a generated case exercise the clock (in place): Tasks get `TimeoutSeconds` and their workers reply delays on
     both sides of the deadline (never exactly on it: which of two timers due at the same instant fires first is not
     the model's business) or never answer; other workers get non-default delays; Wait states take all four forms, the
-    timestamps written in assorted offset notations; `States.Timeout` appears in Retry / Catch lists."""
+    timestamps written in assorted offset notations; `States.Timeout` appears in Retry / Catch lists; and
+    (`limit_share` of the cases) the machine gets a top-level `TimeoutSeconds` — the execution's time limit — of the
+    order of the waits, Task limits and retry intervals of the case (1-8 s), so that it runs out in a Wait, in a Task
+    (before, at and after the Task's own limit), in a Retrier's interval, inside fan-outs, or not at all.  Worker delays
+    stay as they are: a reply due exactly at the execution's deadline is heard after the timer (timers go first under
+    the canonical schedule), which is what the reference semantics says too (strictly before the deadline)."""
+    if rng.random() < limit_share:
+        machine["TimeoutSeconds"] = rng.choice([1, 2, 2, 3, 3, 4, 5, 8])
     when_ms = base_epoch_ms + rng.choice([0, 500, 1000, 2500, 4000])
     if isinstance(data, dict):
         data["when"] = rfc3339(when_ms, rng.choice([0, 0, 330, -210, 60, -1439]), zulu=rng.random() < 0.5)
